@@ -121,6 +121,13 @@ let () =
   let mM = ref None and mN = ref None in
   let parts = ref [] and nparts_rep = ref 0 in
   let slice_z = ref None in
+  let tol_m = ref { m = 0; e = 0; fin = true } in
+  (* generic-position radius: max(scale/2^20, 10 * GetTolerance()) in units of 2^emin (rounded up) *)
+  let radius emin s =
+    let d = !tol_m in
+    let t10 = if d.m = 0 || not d.fin then Z0 else (let k = d.e - emin in
+      if k >= 0 then shl (z_of_int (10 * d.m)) k else zadd (shr (z_of_int (10 * d.m)) (-k)) (z_of_int 1)) in
+    zmax (zmax (shr s 20) (z_of_int 1)) t10 in
   let get r = match !r with Some x -> x | None -> failwith "no mesh" in
   try
     while true do
@@ -134,6 +141,7 @@ let () =
         | "Q" ->
           let m = get mM in
           let vol = dy_of_hex t.(2) and area = dy_of_hex t.(3) in
+          tol_m := dy_of_hex t.(Array.length t - 1);
           let bb = List.init 6 (fun i -> dy_of_hex t.(4 + i)) in
           let emin = emin_of (mesh_dys m @ bb) in
           let emin = if emin = max_int then 0 else emin in
@@ -188,6 +196,24 @@ let () =
           let tris = mesh_tris emin m in
           let o = p3 emin [List.nth od 0; List.nth od 1; List.nth od 2] and e = p3 emin [List.nth od 3; List.nth od 4; List.nth od 5] in
           let (cr, dg) = seg_crossings o e tris in
+          (* generic position also means: ends not within r of the surface, segment not within r of any edge
+             whose triangle box (inflated by r) meets the segment box *)
+          let s0 = zmax (max_abs (tri_pts tris)) (max_abs [o; e]) in
+          let r = radius emin s0 in
+          let tb0 = List.map (fun x -> (x, box_of_tri x)) tris in
+          let sbox = box_of_tri ((o, e), e) in
+          let ((slx, sly), slz), ((shx, shy), shz) = sbox in
+          let dseg = psub e o in
+          let r2 = zmul r r in
+          let near_edge = List.exists (fun (((a, b), c), (((lx, ly), lz), ((hx, hy), hz))) ->
+              let apart = zle (zadd shx r) lx || zle (zadd hx r) slx || zle (zadd shy r) ly || zle (zadd hy r) sly
+                          || zle (zadd shz r) lz || zle (zadd hz r) slz in
+              (not apart) &&
+              List.exists (fun (u, v) ->
+                  let w = o3 o e u v in
+                  let cr_ = cross dseg (psub v u) in
+                  zle (zmul w w) (zmul r2 (norm2 cr_))) [(a, b); (b, c); (c, a)]) tb0 in
+          let dg = if near_edge || near3 o tb0 r || near3 e tb0 r then zadd dg (z_of_int 1) else dg in
           let wo = winding_fast tris o and we = winding_fast tris e in
           let sorted = ref true and prev = ref neg_infinity in
           List.iter (fun (d, _) -> if not (d >= !prev && d >= 0.0 && d <= 1.0) then sorted := false; prev := d) hits;
@@ -215,7 +241,7 @@ let () =
           let tris = mesh_tris emin m in
           let p = match List.map (zof emin) pd with [a; b; c] -> ((a, b), c) | _ -> failwith "p" in
           let s = zmax (max_abs (tri_pts tris)) (max_abs [p]) in
-          let r = zmax (shr s 20) (z_of_int 1) in
+          let r = radius emin s in
           let tb = List.map (fun x -> (x, box_of_tri x)) tris in
           Printf.printf "V %s wind %d %d %d\n" id rep (int_of_z (winding_fast tris p)) (b2i (near3 p tb r))
         | "SZ" -> slice_z := Some (dy_of_hex t.(2))
@@ -233,6 +259,7 @@ let () =
           let pe = min emin (emin_of (List.concat_map (fun p -> List.concat_map (fun (x, y) -> [x; y]) p) polys)) in
           let tris = mesh_tris emin m in
           let pts = tri_pts tris in
+          if pts = [] then Printf.printf "V %s %s 0 %d 0 1 0\n" id (if is_slice then "slice" else "proj") (if np = 0 then 0 else 1) else
           let zpolys = List.map (List.map (fun (x, y) -> ((zof pe x, zof pe y), Z0))) polys in
           let z = zof emin zd in
           let generic = not (List.exists (fun ((_, _), vz) -> zcmp vz z = 0) pts) in
@@ -241,7 +268,7 @@ let () =
           let fx ((x, _), _) = x and fy ((_, y), _) = y in
           let lx = lo fx and hx = hi fx and ly = lo fy and hy = hi fy in
           let s = max_abs pts in
-          let r = zmax (shr s 20) (z_of_int 1) in
+          let r = radius emin s in
           let tb = List.map (fun x -> (x, box_of_tri x)) tris in
           let flat ((x, y), _) = ((x, y), Z0) in
           let eb = if is_slice then [] else List.concat_map (fun ((a, b), c) ->
